@@ -388,11 +388,22 @@ fn run_rec(plan: &RecPlan, fp: u64) -> CaseOut {
     }
     let mut matched = false;
     let mut wanted = vec![];
+    let mut candidates = vec![];
     for d in &depths {
-        let chain = match rec_chain(plan, &module, &cards, *d) {
-            Ok(c) => c,
+        match rec_chain(plan, &module, &cards, *d) {
+            Ok(c) => candidates.push(c),
             Err(e) => return mk("harness_plan_consistent", e),
-        };
+        }
+    }
+    if n == 0 && first.is_none() {
+        // the budget ran out before the recursion started: the run was still in main or in one of
+        // the plain functions, so only the outer part of the chain is active
+        let full = candidates[0].clone();
+        for skip in 1..=full.len() {
+            candidates.push(full[skip..].to_vec());
+        }
+    }
+    for chain in candidates {
         let rest = &got[1..];
         if (rest.len() == chain.len() || rest.len() == chain.len() + 1) && rest[..chain.len()] == chain[..] {
             matched = true;
